@@ -13,7 +13,7 @@ def run(tier):
     c = Check("C12", tier)
     spec = os.path.join(ROOT, "specs", "dynbitset")
     exe = build_driver("dynbitset", os.path.join(ROOT, "harness", "dynbitset_driver.cpp"), "asan")
-    cases, ops = (120, 300) if tier == "quick" else (1600, 500)
+    cases, ops = (120, 300) if tier == "quick" else (3000, 500)
     r, edges = c.model(spec, "MCDynBitset", "MCDynBitset_%s.cfg" % tier, must_take=MUST)
     seqs, nedges, nstates, unreach = cover(edges)
     script = os.path.join(c.wd, "script.ndjson")
@@ -22,9 +22,17 @@ def run(tier):
     tr = os.path.join(c.wd, "replay.ndjson")
     c.drive(exe, ["--script", script], tr, "R")
     c.validate(spec, "TraceDynBitset", "TraceDynBitset.cfg", tr, "R")
-    tr2 = os.path.join(c.wd, "random.ndjson")
-    c.drive(exe, ["--random", "--seed", SEED, "--cases", cases, "--ops", ops], tr2, "T", timeout=600)
-    c.validate(spec, "TraceDynBitset", "TraceDynBitset.cfg", tr2, "T")
+    # T in chunks of at most 200 executions per driver process (own seed each): with detect_stack_use_after_return
+    # every caught exception (out_of_range / overflow_error are part of the interface) leaves fake-stack frames
+    # behind and a long-running process becomes very slow
+    done, chunk = 0, 0
+    while done < cases:
+        k = min(200, cases - done)
+        tr2 = os.path.join(c.wd, "random_%d.ndjson" % chunk)
+        c.drive(exe, ["--random", "--seed", SEED + chunk, "--cases", k, "--ops", ops], tr2, "T%d" % chunk, timeout=600)
+        c.validate(spec, "TraceDynBitset", "TraceDynBitset.cfg", tr2, "T%d" % chunk)
+        done += k
+        chunk += 1
     c.exhaustive = True
     c.assumptions = ["size after growth, after reset(), after &= with a longer operand and after << on an empty bitset is not "
                      "documented: any documented reading is accepted (bound from the recorded execution)",
